@@ -2,10 +2,11 @@
 from __future__ import annotations
 
 import ast
+import copy
 from typing import Dict, List, Optional, Set, Tuple
 
-from ..cfg import CFG, EXIT
-from ..exprnorm import norm_test, normalize
+from ..cfg import CFG, path_conditions, symbolic_block, EXIT
+from ..exprnorm import Poly, Rat, conj_test, norm_test, normalize
 from ..report import Run
 from ..src import AnalysisError, FuncInfo, Program, call_name, stmt_key, walk_no_nested
 from . import common
@@ -234,17 +235,40 @@ def _prefixes(prog: Program, run: Run) -> None:
     R = "C06.R3"
     f = prog.func("DiagService.decode_message")
     msg = f.params()[1]
-    filt = [x for x in walk_no_nested(f.node) if isinstance(x, ast.If) and "prefix" in
-            ast.unparse(x.test) and any("append" in ast.unparse(s) for s in x.body)]
-    want = norm_test(ast.parse(f"len({msg}) >= len(prefix) and prefix == {msg}[:len(prefix)]",
+    # the selection predicate, wherever it is written (if + append in a loop, or the `if` of a
+    # comprehension); the candidate's prefix may be held in a local or computed in place
+    plocals = {ast.unparse(x.targets[0]) for x in walk_no_nested(f.node)
+               if isinstance(x, ast.Assign) and isinstance(x.value, ast.Call) and
+               call_name(x.value) == "coded_const_prefix"}
+
+    class _P(ast.NodeTransformer):
+        def visit_Call(self, node: ast.Call) -> ast.AST:
+            if call_name(node) == "coded_const_prefix":
+                return ast.Name(id="PREFIX", ctx=ast.Load())
+            self.generic_visit(node)
+            return node
+
+        def visit_Name(self, node: ast.Name) -> ast.AST:
+            return ast.Name(id="PREFIX", ctx=ast.Load()) if node.id in plocals else node
+    preds = [x.test for x in walk_no_nested(f.node) if isinstance(x, ast.If) and any(
+        isinstance(c_, ast.Call) and call_name(c_) == "append" for s_ in x.body
+        for c_ in ast.walk(s_))]
+    for x in walk_no_nested(f.node):
+        if isinstance(x, (ast.ListComp, ast.GeneratorExp)):
+            for g_ in x.generators:
+                preds += list(g_.ifs)
+    want = norm_test(ast.parse(f"len({msg}) >= len(PREFIX) and PREFIX == {msg}[:len(PREFIX)]",
                                mode="eval").body)
-    alt = norm_test(ast.parse(f"{msg}.startswith(prefix)", mode="eval").body)
-    if filt and norm_test(filt[0].test) in (want, alt):
+    alt = norm_test(ast.parse(f"{msg}.startswith(PREFIX)", mode="eval").body)
+    got = [norm_test(_P().visit(copy.deepcopy(t))) for t in preds
+           if "coded_const_prefix" in ast.unparse(t) or any(
+               isinstance(n_, ast.Name) and n_.id in plocals for n_ in ast.walk(t))]
+    if any(g_ in (want, alt) for g_ in got):
         run.ok(R, "DiagService.decode_message", "candidates are the coding objects whose constant "
-               "prefix is a byte prefix of the message", f"{f.module.rel}:{filt[0].lineno}")
+               "prefix is a byte prefix of the message", f.loc)
     else:
         run.violation(R, "DiagService.decode_message", "prefix-filter",
-                      f"the candidate filter is `{ast.unparse(filt[0].test) if filt else '?'}`, "
+                      f"the candidate filter is {got or '?'}, "
                       f"not `len({msg}) >= len(prefix) and prefix == {msg}[:len(prefix)]`: "
                       "messages are attributed to coding objects whose prefix does not match (or "
                       "matching ones are dropped)", f.loc)
@@ -354,14 +378,13 @@ def _const_prefix(prog: Program, run: Run) -> None:
     elif breaks and encs:
         # every iteration either encodes a constant or breaks
         en = cfg.node_of(_stmt(f.node, encs[0]))
-        conds = [t for t, p in cfg.branch_conditions(en) if p]
-        txt = " ".join(ast.unparse(c) for c in conds)
-        want_cmp = norm_test(ast.parse("param.request_byte_position < len(request_prefix)",
-                                       mode="eval").body)
-        has_cmp = any(isinstance(k, ast.Compare) and norm_test(k) == want_cmp
-                      for c in conds for k in ast.walk(c))
-        ok = "CodedConstParameter" in txt and "PhysicalConstantParameter" in txt and \
-            "MatchingRequestParameter" in txt and has_cmp
+        txt = conj_test(path_conditions(cfg, en))
+        want_full = norm_test(ast.parse(
+            "isinstance(param, MatchingRequestParameter) and "
+            "param.request_byte_position < len(request_prefix) or "
+            "isinstance(param, (CodedConstParameter, PhysicalConstantParameter))",
+            mode="eval").body)
+        ok = txt == want_full
         if ok:
             run.ok(R, f.qual, "constants (and matching-request parameters inside the request "
                    "prefix) are encoded; the first other parameter ends the prefix",
@@ -386,30 +409,56 @@ def _binner(prog: Program, run: Run) -> None:
     if f is None:
         raise AnalysisError("ServiceBinner.__extract_sid not found")
     C = "ServiceBinner.__extract_sid"
-    s = ast.unparse(f.node)
-    sh = [x for x in walk_no_nested(f.node) if isinstance(x, ast.AugAssign) and isinstance(
-        x.op, ast.RShift)]
-    if sh and normalize(sh[0].value).same(normalize(ast.parse("cursor - 8", mode="eval").body)):
-        run.ok(R, C, "the accumulated prefix is shifted by (accumulated bits - 8): its most "
-               "significant byte remains", f"{f.module.rel}:{sh[0].lineno}")
+    loops = [l for l in walk_no_nested(f.node) if isinstance(l, ast.For) and "parameters" in
+             ast.unparse(l.iter)]
+    if len(loops) != 1:
+        raise AnalysisError("ServiceBinner.__extract_sid: parameter loop not found")
+    lp = loops[0]
+    pv = ast.unparse(lp.target)
+    # one iteration, symbolically: the loop-carried `prefix` / `cursor` stay free names
+    rets = symbolic_block(lp.body)
+    sid = [(c, e) for c, e, r in rets if e is not None and not (
+        isinstance(e, ast.Constant) and e.value is None)]
+    none_paths = [(c, e) for c, e, r in rets if isinstance(e, ast.Constant) and e.value is None]
+    want = normalize(ast.parse(
+        f"(((prefix << L) | ({pv}.coded_value & ((1 << L) - 1))) >> (cursor + L - 8)) & 255",
+        mode="eval").body)
+
+    def env(node: ast.AST):
+        if isinstance(node, ast.Call) and call_name(node) == "get_static_bit_length":
+            return Rat(Poly.atom("L"))
+        return None
+    if len(sid) == 1:
+        conds, e = sid[0]
+        got = normalize(e, env)
+        if got.same(want):
+            run.ok(R, C, "SID = most significant byte of the leading constants concatenated most "
+                   "significant first: ((prefix << n | value & mask) >> (bits - 8)) & 0xff",
+                   f"{f.module.rel}:{lp.lineno}")
+        else:
+            run.violation(R, C, "sid-formula",
+                          f"one iteration returns `{' '.join(ast.unparse(e).split())[:160]}`, "
+                          "which is not ((prefix << n | value & ((1 << n) - 1)) >> "
+                          "(cursor + n - 8)) & 0xff: the service is filed under a wrong SID",
+                          f"{f.module.rel}:{lp.lineno}")
+        ctxt = conj_test(conds, env)
+        need = [norm_test(ast.parse(t, mode="eval").body, env) for t in (
+            f"isinstance({pv}, CodedConstParameter)", f"isinstance({pv}.coded_value, int)",
+            "cursor + L >= 8")]
+        if all(n_ in ctxt for n_ in need):
+            run.ok(R, C, "only leading CODED-CONST parameters with integer values contribute; "
+                   "the SID is returned as soon as 8 bits are known", f"{f.module.rel}:{lp.lineno}")
+        else:
+            run.violation(R, C, "sid", "the SID is not the first byte built from leading "
+                          f"CODED-CONST parameters only (returned under `{ctxt}`)", f.loc)
     else:
-        run.violation(R, C, "sid-shift",
-                      f"`{stmt_key(sh[0]) if sh else '?'}`: the most significant byte of the "
-                      "accumulated constants is obtained by shifting right by (accumulated bit "
-                      "count - 8)", f"{f.module.rel}:{sh[0].lineno if sh else f.node.lineno}",
-                      stmt_key(sh[0]) if sh else "")
-    if "prefix <<= param_len" in s and "prefix |= param.coded_value & (1 << param_len) - 1" in s \
-            and "cursor += param_len" in s:
-        run.ok(R, C, "constants are concatenated most significant first", f.loc)
+        run.violation(R, C, "sid", f"expected exactly one path of an iteration that returns a "
+                      f"SID, found {len(sid)}", f.loc)
+    if any("CodedConstParameter" in conj_test(c) for c, _e in none_paths):
+        run.ok(R, C, "a non-constant leading parameter means: no SID", f.loc)
     else:
-        run.violation(R, C, "accumulate", "leading constants are not concatenated as "
-                      "prefix = prefix << len | value", f.loc)
-    if "not isinstance(param, CodedConstParameter)" in s and "return prefix & 255" in s and \
-            "if cursor >= 8" in s:
-        run.ok(R, C, "only leading CODED-CONST parameters contribute; the SID is one byte", f.loc)
-    else:
-        run.violation(R, C, "sid", "the SID is not the first byte built from leading CODED-CONST "
-                      "parameters only", f.loc)
+        run.violation(R, C, "non-constant-skipped", "a parameter that is not a CODED-CONST does "
+                      "not end the search with `None`", f.loc)
     init = ci.methods.get("__init__")
     si = ast.unparse(init.node) if init else ""
     if "service_groups[SID].append(service)" in si and "self.__extract_sid(service)" in si:
